@@ -1,0 +1,67 @@
+//go:build verif
+
+package sql
+
+// Contracts for the deductive verifier in /verif (govc). Comment-only file: with or without
+// the `verif` build tag it adds no declaration to the package.
+
+// ---------------------------------------------------------------- C16 (kernel)
+
+// `fields` is the list of matches `<field> = $<name>$` of the comment, in order of occurrence;
+// fields[i][1] is the Go field, fields[i][2] the placeholder name.
+// isFirst(i): match i is the first occurrence of its placeholder name.
+//@ pred firstOcc(fields [][]string, i int, v string) bool = 0 <= i && i < len(fields) && fields[i][2] == v && (forall p int :: 0 <= p && p < i ==> fields[p][2] != v)
+
+//@ func newCustomQuery
+//@   props C16
+//@   -- one input per distinct placeholder name ...
+//@   ensures forall k1, k2 int :: 0 <= k1 && k1 < k2 && k2 < len(out.Inputs) ==> out.Inputs[k1].VarName != out.Inputs[k2].VarName
+//@   ensures forall i int :: 0 <= i && i < len(fields) ==> (exists k int :: 0 <= k && k < len(out.Inputs) && out.Inputs[k].VarName == fields[i][2])
+//@   -- ... taken from its first occurrence and typed like the field it is compared with there ...
+//@   ensures forall k int :: 0 <= k && k < len(out.Inputs) ==> (exists i int :: firstOcc(fields, i, out.Inputs[k].VarName) && out.Inputs[k].Type == columsByName[fields[i][1]])
+//@   -- ... in order of first occurrence (so the k-th input is the k-th distinct name)
+//@   ensures forall k1, k2, i1, i2 int :: 0 <= k1 && k1 < k2 && k2 < len(out.Inputs) && firstOcc(fields, i1, out.Inputs[k1].VarName) && firstOcc(fields, i2, out.Inputs[k2].VarName) ==> i1 < i2
+//@   -- the replacer maps $name$ of the k-th input to $k+1
+//@   ensures len(oldNew) == 2*len(out.Inputs)
+//@   ensures forall k int :: 0 <= k && k < len(out.Inputs) ==> oldNew[2*k] == "$" + out.Inputs[k].VarName + "$" && oldNew[2*k+1] == fmt.Sprintf("$%d", k+1)
+//@   loop fields.1 index n
+//@   loop fields.1 invariant forall v string :: has(fieldToIndex, v) <==> (exists i int :: 0 <= i && i < n && fields[i][2] == v)
+//@   loop fields.1 invariant forall k1, k2 int :: 0 <= k1 && k1 < k2 && k2 < len(out.Inputs) ==> out.Inputs[k1].VarName != out.Inputs[k2].VarName
+//@   loop fields.1 invariant forall i int :: 0 <= i && i < n ==> (exists k int :: 0 <= k && k < len(out.Inputs) && out.Inputs[k].VarName == fields[i][2])
+//@   loop fields.1 invariant forall k int :: 0 <= k && k < len(out.Inputs) ==> (exists i int :: i < n && firstOcc(fields, i, out.Inputs[k].VarName) && out.Inputs[k].Type == columsByName[fields[i][1]])
+//@   loop fields.1 invariant forall k1, k2, i1, i2 int :: 0 <= k1 && k1 < k2 && k2 < len(out.Inputs) && firstOcc(fields, i1, out.Inputs[k1].VarName) && firstOcc(fields, i2, out.Inputs[k2].VarName) ==> i1 < i2
+//@   loop fields.1 invariant isnil(out.Inputs) || (fresh(out.Inputs) && allocated(out.Inputs))
+//@   loop out.Inputs.1 index m
+//@   loop out.Inputs.1 invariant len(oldNew) == 2*m
+//@   loop out.Inputs.1 invariant forall k int :: 0 <= k && k < m ==> oldNew[2*k] == "$" + out.Inputs[k].VarName + "$" && oldNew[2*k+1] == fmt.Sprintf("$%d", k+1)
+//@   loop out.Inputs.1 invariant isnil(oldNew) || (fresh(oldNew) && allocated(oldNew))
+
+// the three classifiers of SQL comments are functions of the comment (regular expression matching is not modelled)
+//@ func isUniqueConstraint
+//@   pure
+//@ func isUniquesConstraint
+//@   pure
+//@ func isSelectKey
+//@   pure
+
+// internal directives (select keys) never reach the SQL output; queries only go to CustomQueries;
+// every other SQL comment is kept
+//@ func (*Table).processComments
+//@   props C16
+//@   requires ta != nil && (forall i int :: 0 <= i && i < len(ta.Columns) ==> ta.Columns[i].Field.Field != nil)
+//@   requires isnil(ta.CustomConstraints) || allocated(ta.CustomConstraints)
+//@   modifies ta.uniqueColumns, ta.CustomQueries, ta.uniquesCols, ta.selectKeys, ta.CustomConstraints
+//@   ensures len(ta.CustomConstraints) >= len(old(ta.CustomConstraints)) && (forall k int :: 0 <= k && k < len(old(ta.CustomConstraints)) ==> ta.CustomConstraints[k] == old(ta.CustomConstraints[k]))
+//@   ensures forall k int :: len(old(ta.CustomConstraints)) <= k && k < len(ta.CustomConstraints) ==> (exists i int :: 0 <= i && i < len(comments) && comments[i].Kind == an.CommentSQL && len(isSelectKey(comments[i].Content)) == 0 && ta.CustomConstraints[k] == comments[i].Content)
+//@   ensures forall i int :: 0 <= i && i < len(comments) && comments[i].Kind == an.CommentSQL && len(isSelectKey(comments[i].Content)) == 0 ==> (exists k int :: len(old(ta.CustomConstraints)) <= k && k < len(ta.CustomConstraints) && ta.CustomConstraints[k] == comments[i].Content)
+//@   ensures len(ta.CustomQueries) >= len(old(ta.CustomQueries))
+//@   loop ta.Columns.1 index c
+//@   loop comments.1 index n
+//@   loop comments.1 invariant len(ta.CustomConstraints) >= len(old(ta.CustomConstraints)) && (forall k int :: 0 <= k && k < len(old(ta.CustomConstraints)) ==> ta.CustomConstraints[k] == old(ta.CustomConstraints[k]))
+//@   loop comments.1 invariant forall k int :: len(old(ta.CustomConstraints)) <= k && k < len(ta.CustomConstraints) ==> (exists i int :: 0 <= i && i < n && comments[i].Kind == an.CommentSQL && len(isSelectKey(comments[i].Content)) == 0 && ta.CustomConstraints[k] == comments[i].Content)
+//@   loop comments.1 invariant forall i int :: 0 <= i && i < n && comments[i].Kind == an.CommentSQL && len(isSelectKey(comments[i].Content)) == 0 ==> (exists k int :: len(old(ta.CustomConstraints)) <= k && k < len(ta.CustomConstraints) && ta.CustomConstraints[k] == comments[i].Content)
+//@   loop comments.1 invariant len(ta.CustomQueries) >= len(old(ta.CustomQueries)) && ta.uniqueColumns != nil
+//@   loop comments.1 invariant isnil(ta.CustomConstraints) || allocated(ta.CustomConstraints)
+
+//@ func (*Table).TableName
+//@   pure
